@@ -41,12 +41,15 @@ THEOREMS = [
     # growth round: uniqueness of the image flags, the entry points with their option handling (model C05_Src.lean)
     'C05.wrap_flags_unique', 'C05.boxSetApi_refuses_iff', 'C05.wrapApi_spec', 'C05.api_wrap_reconstruct',
     'C05.normalizeApi_style_iff', 'C05.api_normalize_never_refuses',
+    'C05.lammps_normal_unique', 'C05.normalize_cell_unique', 'C05.normalize_of_lammps_normal',
+    'C05.copyKeys_complete', 'C05.copyKeys_nodup',
     # source tie (Proofs/C05_Source.lean): every definition regenerated from /repo by translate() equals the hand model
     'C05.gen_defaults_eq_model', 'C05.gen_flagTests_eq_model', 'C05.gen_literals_eq_model', 'C05.transformOK_eq_with',
     'C05.gen_protocol_eq_model', 'C05.gen_axisBounds_eq_model', 'C05.gen_axisFlag_eq_model', 'C05.gen_paddedBox_eq_model',
     'C05.gen_flip_eq_model', 'C05.gen_transform_eq_model', 'C05.gen_cleanEntry_eq_model', 'C05.gen_coords_eq_model',
     'C05.gen_lengths_eq_model', 'C05.gen_setLengths_eq_model', 'C05.gen_abc_eq_model', 'C05.gen_vectAngleCos_eq_model',
     'C05.gen_boxSetBody_eq_model', 'C05.gen_wrapBody_eq_model', 'C05.gen_wrapApi_eq_model', 'C05.gen_normalizeBody_eq_model',
+    'C05.gen_deepcopyKeys_eq_model',
 ]
 PARTIAL = {
     'input_left_as_it_was': 'a heap fact (aliasing/mutation), true by construction of the functional model and '
@@ -2231,6 +2234,7 @@ def correspond(ctx):
     _corr_norm(ctx, big_n)
     # the entry points with every kind of value for their options (own random stream: the cases above are unchanged)
     _corr_api(ctx, _api_cases(random.Random(ctx.seed + 31), ctx.n(288, 2304)))
+    _corr_copykeys(ctx, random.Random(ctx.seed + 37), ctx.n(64, 512))
 
 
 def _inside_nonperiodic(rng, case):
@@ -3385,6 +3389,33 @@ def _pub_api(rec):
     return {k: v for k, v in rec.items() if k != 'line'}
 
 
+def _hexname(k):
+    return k.encode('utf-8').hex() or '-'
+
+
+def _corr_copykeys(ctx, rng, n):
+    """keys of the atoms of the copy `normalize` returns vs the model's `copyKeys` (generated reserved / explicit lists)."""
+    lines, wants = [], []
+    for it in range(n):
+        case = _grid_case(rng, (True, True, True), n=rng.randint(1, 3))
+        system = _build(case)
+        keys = list(system.atoms.view.keys())
+        try:
+            res = system.normalize()
+            got = list(res.atoms.view.keys())
+        except Exception as e:  # noqa
+            got = 'raised ' + type(e).__name__
+        lines.append('copykeys ' + ' '.join(_hexname(k) for k in keys))
+        wants.append((case, keys, got))
+    outs = ctx.driver.ask_many(lines)
+    for line, (case, keys, got), out in zip(lines, wants, outs):
+        ctx.stats.case('api:copykeys', line, nontrivial=True)
+        model = [bytes.fromhex(t).decode('utf-8') if t != '-' else '' for t in out.split()] if not out.startswith('err:') else out
+        if isinstance(got, str) or isinstance(model, str) or sorted(got) != sorted(model):
+            ctx.disagree('norm:carried', f'normalize: the copy has the per-atom keys {got}, model {model} (input keys {keys})',
+                         {'op': 'norm', 'case': case})
+
+
 def _corr_api(ctx, recs):
     outs = ctx.driver.ask_many([r['line'] for r in recs])
     for rec, out in zip(recs, outs):
@@ -4092,6 +4123,31 @@ def translate():
     tail = ast.dump(ast.Module(body=vb[5:], type_ignores=[]), include_attributes=False)
     out['vectAngleTailPin'] = hashlib.sha256(tail.encode()).hexdigest()[:20]
 
+    # ---------------------------------------------------------------- Atoms.__deepcopy__ (the copy normalize works on)
+    atree = ast.parse(cm.source('atomman/core/Atoms.py'))
+    b = body_of(method(cls_of(atree, 'Atoms'), '__deepcopy__'))
+    if not (len(b) == 5 and U(b[0]) == 'd = OrderedDict()' and isinstance(b[3], ast.For) and U(b[3].target) == 'key'
+            and U(b[3].iter) == 'self.view' and not b[3].orelse and len(b[3].body) == 1 and isinstance(b[3].body[0], ast.If)):
+        bad('Atoms.__deepcopy__: body')
+    explicit = []
+    for st in b[1:3]:
+        ok = isinstance(st, ast.Assign) and isinstance(st.targets[0], ast.Name) and isinstance(st.value, ast.Call) \
+            and U(st.value.func) == 'deepcopy' and len(st.value.args) == 1 \
+            and U(st.value.args[0]) == f"self.view['{st.targets[0].id}']"
+        if not ok:
+            bad('Atoms.__deepcopy__: ' + U(st)[:60])
+        explicit.append(st.targets[0].id)
+    iff = b[3].body[0]
+    t = iff.test
+    if not (isinstance(t, ast.Compare) and U(t.left) == 'key' and len(t.ops) == 1 and isinstance(t.ops[0], ast.NotIn)
+            and isinstance(t.comparators[0], (ast.List, ast.Tuple, ast.Set))
+            and all(isinstance(e, ast.Constant) and isinstance(e.value, str) for e in t.comparators[0].elts)
+            and not iff.orelse and [U(x) for x in iff.body] == ['d[key] = deepcopy(self.view[key])']):
+        bad('Atoms.__deepcopy__: the filter of the loop is not `key not in [<literal names>]`')
+    reserved = [e.value for e in t.comparators[0].elts]
+    if U(b[4]) != 'return Atoms(' + ', '.join(f'{x}={x}' for x in explicit) + ', **d)':
+        bad('Atoms.__deepcopy__: ' + U(b[4])[:60])
+
     # ---------------------------------------------------------------- emit
     def lst(xs):
         return '[' + ', '.join(xs) + ']'
@@ -4108,7 +4164,7 @@ def translate():
     A = L.append
     A('/- GENERATED by harness/props/c05.py (translate) from atomman/core/System.py (wrap, box_set, normalize, atoms_prop),')
     A('   atomman/lammps/normalize.py, atomman/core/Box.py (setters, reciprocal_vects, position_*, set, set_vectors, set_lengths,')
-    A('   set_abc, a b c alpha beta gamma) and atomman/tools/vect_angle.py — do not edit.')
+    A('   set_abc, a b c alpha beta gamma), atomman/tools/vect_angle.py and atomman/core/Atoms.py (__deepcopy__) — do not edit.')
     A('   `Proofs/C05_Source.lean` proves each definition equal to the hand-written model (theorems `gen_*_eq_model`). -/')
     A('import Atomman.C05_Src')
     A('')
@@ -4165,6 +4221,9 @@ def translate():
     A('def angleGetters : List (String × Nat × Nat) := ' + lst('("%s", %d, %d)' % a for a in angles))
     A(f'/-- the disjuncts of the refusal at the head of `set_abc` -/')
     A('def abcGuard : List (String × String × Nat) := ' + lst('("%s", "%s", %d)' % g for g in guard))
+    A('/-- `Atoms.__deepcopy__`: keys copied explicitly and handed over by keyword; names the loop filter excludes (exact match) -/')
+    A(f'def atomsCopyExplicit : List String := {strs(explicit)}')
+    A(f'def atomsCopyReserved : List String := {strs(reserved)}')
     A('')
     A('variable {K : Type}')
     A('section formulas')
